@@ -38,6 +38,11 @@
 #include <ompl/geometric/planners/informedtrees/AITstar.h>
 #include <ompl/geometric/planners/informedtrees/EITstar.h>
 #include <ompl/geometric/planners/informedtrees/EIRMstar.h>
+#include <ompl/geometric/planners/rrt/VFRRT.h>
+#include <ompl/geometric/planners/rrt/TSRRT.h>
+#include <ompl/geometric/planners/xxl/XXL.h>
+#include <ompl/geometric/planners/xxl/XXLPositionDecomposition.h>
+#include <ompl/util/RandomNumbers.h>
 #include <ompl/multilevel/planners/qrrt/QRRT.h>
 #include <ompl/multilevel/planners/qrrt/QRRTStar.h>
 #include <ompl/multilevel/planners/qmp/QMP.h>
@@ -246,6 +251,121 @@ namespace vpl
         return p;
     }
 
+    // ---- planners that need extra structure: a vector field, a task space, a workspace decomposition. All three are defined on the
+    // first two value locations (x, y) of the space, which every world of the harness has.
+    inline void xyBounds(const ob::StateSpacePtr &sp, ob::RealVectorBounds &b)
+    {
+        if (sp->getType() == ob::STATE_SPACE_REAL_VECTOR)
+            b = sp->as<ob::RealVectorStateSpace>()->getBounds();
+        else
+            b = sp->as<ob::SE2StateSpace>()->getBounds();  // SE(2), Dubins, Reeds-Shepp
+        b.low.resize(2);
+        b.high.resize(2);
+    }
+    inline ob::PlannerPtr mkVFRRT(const ob::SpaceInformationPtr &si)
+    {
+        ob::StateSpace *sp = si->getStateSpace().get();
+        auto vf = [sp](const ob::State *s) {
+            Eigen::VectorXd v(sp->getValueLocations().size());
+            v.setZero();
+            double x = *sp->getValueAddressAtIndex(s, 0), y = *sp->getValueAddressAtIndex(s, 1);
+            v[0] = 0.6 - 0.3 * (y - 2.0);  // a drift towards +x with a swirl around (2,2); vanishes nowhere on the maps
+            v[1] = 0.4 + 0.3 * (x - 2.0);
+            return v;
+        };
+        return std::make_shared<og::VFRRT>(si, vf, 0.7, 1.0, 10);
+    }
+    struct XYTaskSpace : og::TaskSpaceConfig
+    {
+        ob::StateSpacePtr sp;
+        ob::RealVectorBounds b{2};
+        mutable ompl::RNG rng;  // drawn through hook H1 like every other generator
+        XYTaskSpace(const ob::StateSpacePtr &s) : sp(s)
+        {
+            xyBounds(sp, b);
+        }
+        int getDimension() const override
+        {
+            return 2;
+        }
+        void project(const ob::State *state, Eigen::Ref<Eigen::VectorXd> ts) const override
+        {
+            ts[0] = *sp->getValueAddressAtIndex(state, 0);
+            ts[1] = *sp->getValueAddressAtIndex(state, 1);
+        }
+        void sample(Eigen::Ref<Eigen::VectorXd> ts) const override
+        {
+            ts[0] = rng.uniformReal(b.low[0], b.high[0]);
+            ts[1] = rng.uniformReal(b.low[1], b.high[1]);
+        }
+        bool lift(const Eigen::Ref<Eigen::VectorXd> &ts, const ob::State *seed, ob::State *state) const override
+        {
+            sp->copyState(state, seed);
+            *sp->getValueAddressAtIndex(state, 0) = ts[0];
+            *sp->getValueAddressAtIndex(state, 1) = ts[1];
+            return true;
+        }
+    };
+    inline ob::PlannerPtr mkTSRRT(const ob::SpaceInformationPtr &si)
+    {
+        return std::make_shared<og::TSRRT>(si, std::make_shared<XYTaskSpace>(si->getStateSpace()));
+    }
+    struct XYDecomposition : og::XXLPositionDecomposition
+    {
+        ob::StateSpacePtr sp;
+        ob::StateSamplerPtr smp;
+        ob::RealVectorBounds b{2};
+        mutable ompl::RNG rng;
+        int n;
+        static ob::RealVectorBounds mkb(const ob::StateSpacePtr &s)
+        {
+            ob::RealVectorBounds b(2);
+            xyBounds(s, b);
+            return b;
+        }
+        XYDecomposition(const ob::StateSpacePtr &s, int slices) : og::XXLPositionDecomposition(mkb(s), {slices, slices}, true), sp(s), smp(s->allocStateSampler()), n(slices)
+        {
+            xyBounds(sp, b);
+        }
+        int numLayers() const override
+        {
+            return 1;
+        }
+        bool sampleFromRegion(int r, ob::State *s, const ob::State *seed = nullptr) const override
+        {
+            return sampleFromRegion(r, s, seed, 0);
+        }
+        bool sampleFromRegion(int r, ob::State *s, const ob::State *seed, int) const override
+        {
+            if (seed)
+                sp->copyState(s, seed);
+            else
+                smp->sampleUniform(s);
+            std::vector<int> cell;
+            ridToGridCell(r, cell);
+            double w0 = (b.high[0] - b.low[0]) / n, w1 = (b.high[1] - b.low[1]) / n;
+            *sp->getValueAddressAtIndex(s, 0) = b.low[0] + (cell[0] + rng.uniform01()) * w0;
+            *sp->getValueAddressAtIndex(s, 1) = b.low[1] + (cell[1] + rng.uniform01()) * w1;
+            return true;
+        }
+        void project(const ob::State *s, std::vector<double> &coord, int = 0) const override
+        {
+            coord.resize(2);
+            coord[0] = *sp->getValueAddressAtIndex(s, 0);
+            coord[1] = *sp->getValueAddressAtIndex(s, 1);
+        }
+        void project(const ob::State *s, std::vector<int> &layers) const override
+        {
+            std::vector<double> c;
+            project(s, c, 0);
+            layers.assign(1, coordToRegion(c));
+        }
+    };
+    inline ob::PlannerPtr mkXXL(const ob::SpaceInformationPtr &si)
+    {
+        return std::make_shared<og::XXL>(si, std::make_shared<XYDecomposition>(si->getStateSpace(), 2));
+    }
+
     // multilevel planners: on a plain SE(2) problem the planner gets the level sequence [R^2, SE(2)] (projection guessed by the library);
     // the base level's validity is the bundle's at heading 0 (the cell worlds do not depend on the heading). Everything else: one level.
     template <class P>
@@ -343,8 +463,16 @@ namespace vpl
             {"AITstar+r", mkAITr, EXACT_EDGES | OPTIMIZING | COST_EXACT | IGNORES_SAMPLER | VARIANT},
             {"EITstar+r", mkEITr, OPTIMIZING | COST_EXACT | IGNORES_SAMPLER | VARIANT},
             {"LazyPRM+k3", mkLazyPRMk, VARIANT},
+            {"VFRRT", mkVFRRT, VARIANT},
+            {"TSRRT", mkTSRRT, VARIANT},
+            {"XXL", mkXXL, VARIANT},
         };
         return P;
+    }
+    // salt of the default answer stream a harness should use for this planner (see choice.hpp: >= 1000 selects the hashed stream)
+    inline unsigned streamSalt(const std::string &planner)
+    {
+        return planner == "XXL" ? 1000u : 0u;
     }
     inline const Ent *find(const std::string &n)
     {
